@@ -264,6 +264,11 @@ func vname(v verdict) string { return [...]string{"dont-care", "must-accept", "m
 
 func check(c aCase) *rp.Fail {
 	f, v := decide(c)
+	if f == nil && v == mustAccept {
+		if p, _ := parse(c.Role, c.S); p.err == nil {
+			f = holdText(p.str)
+		}
+	}
 	class := c.Role + "/" + vname(v)
 	ev.Case(class, v != dontCare, c.Role+"\x00"+c.S)
 	if ev.WantSample(class) {
@@ -430,6 +435,23 @@ func genCase(t *rapid.T) aCase {
 		}
 	}
 	return aCase{Role: role, S: s}
+}
+
+// held texts in the sequential part: formatted addresses are kept and compared with a private copy later
+var heldText, heldCopy []string
+
+func holdText(s string) *rp.Fail {
+	heldText, heldCopy = append(heldText, s), append(heldCopy, strings.Clone(s))
+	if len(heldText) < 48 {
+		return nil
+	}
+	defer func() { heldText, heldCopy = nil, nil }()
+	for i := range heldText {
+		if heldText[i] != heldCopy[i] {
+			return rp.Failf("types.Addr.String/text-changed-later", "a formatted address read %q when it was returned and reads %q after later String() calls", heldCopy[i], heldText[i])
+		}
+	}
+	return nil
 }
 
 func props() []rp.Prop {
